@@ -12,6 +12,7 @@ RULE = ('case = (write strategy, history of store / cache-query / drain operatio
         '>=1 thread switch and >=1 duplicate timestamp or re-store after a drain; distinct = distinct interleavings (hash of '
         'the (thread, line) sequence) per history')
 RULE_MORE = (" Further families per strategy: the real writer loop with backend faults, instrumentation ticks on the reactor thread, histories of 150-300 operations, timesorted with a lag, MIN_TIMESTAMP_RESOLUTION set, and the daemon's start-up (write processor built as setupPipeline does, first datapoint against the writer's first pass).")
+RULE_MORE = RULE_MORE + ' Rounds 10-11: a relaybuf family (RELAY_CACHE_METRICS: the resume event stores buffered self-metrics from inside the drain); backend faults carrying an errno.'
 RULE = RULE + RULE_MORE
 EXHAUSTIVE = {'quick': False, 'thorough': False}
 EXHAUSTIVE_OVER = 'all schedules with <=1 preemption of every generated history (and <=2 preemptions for histories marked short)'
